@@ -1,6 +1,7 @@
 package main
 
 import (
+	"strconv"
 	"fmt"
 	"math"
 	"math/rand"
@@ -149,7 +150,7 @@ func checkC19(c *Ctx) {
 	// the deepest inputs of this check need a few GiB in the worker: a wider memory budget than the default
 	c.Pool.Env = append(c.Pool.Env, "ZNWORKER_RSS_LIMIT_MB=10240")
 	c.Pool.LongRetry = true
-	c.rule = "(1) generate: random nested dictionaries (texts over quotes, backslashes, control characters, astral code points; doubles incl. -0, subnormals, 2^53+1, 1.8e308; booleans, 空, empty lists/dicts) enter as input variables; the text of 生成JSON is parsed by Python json.loads (strict constants) and compared structurally; non-finite numbers must give a catchable exception, and so must objects / types / methods / exceptions anywhere in the structure (never null); (2) parse: documents produced by Python json.dumps (random separators, indent, ensure_ascii) must parse to the generator's value with keys in document order; (3) in-language round trip (解析JSON：（生成JSON：D）) 为 D; (6) values nested around the 10000-level bound (a parsed document of depth 9990 wrapped in up to 40 further levels by the program): generation then parsing gives the value back, or generation refuses; (7) documents of 9997 … 10002 nested lists / dictionaries with a scalar, a text, null or nothing innermost: what 解析JSON accepts, 生成JSON writes and 解析JSON reads back as the same value; (5) documents nested 100 … 200000 deep (thorough: up to 6 million) as objects / arrays / both / unclosed: parsed or refused with an exception, never a dead process; (4) every single-character deletion / replacement of small documents, and 20 kinds of blank space (13 of them not JSON white space) before / after / inside them: Python rejects => Zn raises an exception a 拦截 catches, Python accepts => same value. distinct_nontrivial = distinct (family, value shape signature, outcome)"
+	c.rule = "(1) generate: random nested dictionaries (texts over quotes, backslashes, control characters, astral code points; doubles incl. -0, subnormals, 2^53+1, 1.8e308; booleans, 空, empty lists/dicts) enter as input variables; the text of 生成JSON is parsed by Python json.loads (strict constants) and compared structurally; non-finite numbers must give a catchable exception, and so must objects / types / methods / exceptions anywhere in the structure (never null); (2) parse: documents produced by Python json.dumps (random separators, indent, ensure_ascii) must parse to the generator's value with keys in document order; (2b) 35 number spellings (-0 in every form, integers around 2^53 / 2^63 / 2^64, subnormals, underflow) parsed bit for bit; (3) in-language round trip (解析JSON：（生成JSON：D）) 为 D; (6) values nested around the 10000-level bound (a parsed document of depth 9990 wrapped in up to 40 further levels by the program): generation then parsing gives the value back, or generation refuses; (7) documents of 9997 … 10002 nested lists / dictionaries with a scalar, a text, null or nothing innermost: what 解析JSON accepts, 生成JSON writes and 解析JSON reads back as the same value; (5) documents nested 100 … 200000 deep (thorough: up to 6 million) as objects / arrays / both / unclosed: parsed or refused with an exception, never a dead process; (4) every single-character deletion / replacement of small documents, and 20 kinds of blank space (13 of them not JSON white space) before / after / inside them: Python rejects => Zn raises an exception a 拦截 catches, Python accepts => same value. distinct_nontrivial = distinct (family, value shape signature, outcome)"
 	c.assumptions = []string{"Python 3 json module is the reference parser/encoder", "documents whose Python value contains inf (overflowing literals), lone surrogates, integers beyond 2^53, or whose top level is not an object are not judged"}
 	py, err := startPyOracle(c.Root)
 	if err != nil {
@@ -530,6 +531,38 @@ func checkC19(c *Ctx) {
 			c.Violation("parse-order:v:"+shapeSig(pv[i])+":"+string(pdocs[i]), fmt.Sprintf("解析JSON of %q: keys not in document order: %s, expected %s", clip(string(pdocs[i]), 200), clip(resp.Val.String(), 200), clip(pv[i].String(), 200)), rp)
 		}
 	})
+
+	// ---------------- (2b) number spellings: every JSON number is read as the double nearest to its
+	// decimal, the sign of zero included (-0 is what 生成JSON writes for negative zero: reading it
+	// back as +0 would break the round trip for a value that 为 cannot tell apart)
+	{
+		lits := []string{"-0", "0", "-0.0", "-0e0", "-0E+5", "0.0", "-0.000", "1", "-1", "1.0", "1E2", "1e+2", "1e-2", "0.1e1", "123456789012345678901234567890", "-9223372036854775808", "9223372036854775807", "9223372036854775808", "18446744073709551616",
+			"9007199254740993", "-9007199254740993", "4.9e-324", "5e-324", "2.2250738585072014e-308", "1.7976931348623157e308", "0.30000000000000004", "1e-400", "-1e-400", "100", "1e21", "1e22", "123e-2", "0e0", "-0e-0", "10e-1"}
+		nreqs := []Req{}
+		for _, l := range lits {
+			r := execReq(parseSrc)
+			r.Libs = true
+			r.Inputs = map[string]Val{"文": Text("{\"n\":" + l + ",\"l\":[" + l + "," + l + "]}")}
+			nreqs = append(nreqs, r)
+		}
+		c.runBatches(nreqs, 50, func(i int, req *Req, resp *Resp) {
+			c.Eval()
+			f, err := strconv.ParseFloat(lits[i], 64)
+			if err != nil {
+				return
+			}
+			want := Dict([]string{"n", "l"}, []Val{Num(f), List(Num(f), Num(f))})
+			c.Nontrivial("number-spelling|" + lits[i])
+			c.Count("number_spellings_parsed", 1)
+			if resp.Kind != "value" || resp.Val == nil || !Equal(*resp.Val, want) {
+				got := resp.Kind
+				if resp.Val != nil {
+					got = resp.Val.String()
+				}
+				c.Violation("parse-number:"+lits[i], fmt.Sprintf("解析JSON of the number %s: %s, expected %s (bit for bit, the sign of zero included)", lits[i], clip(got, 200), want.String()), map[string]interface{}{"req": req})
+			}
+		})
+	}
 
 	// ---------------- (4) corruptions
 	small := []string{`{"a":1,"b":[true,false,null],"c":{"d":"x\n"}}`, `{"k":-1.5e3,"s":"é中\"","e":[],"o":{}}`, `{ "x" : [ 1 , 2.0 , "3" ] }`}
